@@ -480,6 +480,7 @@ def run_check(check, tier="quick", seed=None, budget_s=None, njobs=None, max_run
                 "event_log_sha": final.get("digest"),
                 "descriptor": final.get("descriptor"),
                 "minimised_from": len(choices), "minimiser_candidates": tried,
+                "original_choices": choices if len(choices) <= 4000 else None,
                 "log_tail": final.get("log", [])[-60:],
             }, f, indent=1, default=_json_default)
         lines.append(f"VIOLATION property={check.property_id} replay={path}")
